@@ -128,6 +128,9 @@ structure PState where
   tzoffsetto : Option Int := none
   rrulelines : List (List Char) := []
   tzname : Option (List Char) := none
+  /-- ghost: the recurrence lines of every component closed so far (each is passed to `rrulestr`
+      by the real code at that point) -/
+  log : List (List (List Char)) := []
   deriving Repr, Inhabited
 
 def lit (x : String) : List Char := x.toList
@@ -163,7 +166,7 @@ def stepLine (st : PState) (line : List Char) : Py.R PState :=
           match st.tzoffsetfrom, st.tzoffsetto with
           | some f, some t =>
             let c : Comp := Comp.mk f t (value == lit "DAYLIGHT") st.tzname st.rrulelines
-            .ok { st with comps := st.comps ++ [c], comptype := none }
+            .ok { st with comps := st.comps ++ [c], comptype := none, log := st.log ++ [st.rrulelines] }
           | _, _ => .error .ValueError
         else .error .ValueError
       else if truthy st.comptype then
@@ -201,6 +204,12 @@ def parseRfc (text : List Char) : Py.R (List VTz) :=
   match (unfold lines).foldlM stepLine ({} : PState) with
   | .ok st => .ok st.vtz
   | .error e => .error e
+
+/-- ghost view: the recurrence-line groups handed to `rrulestr`, in order (empty groups are not passed) -/
+def rruleCalls (text : List Char) : List (List (List Char)) :=
+  match (unfold (splitLines text)).foldlM stepLine ({} : PState) with
+  | .ok st => st.log
+  | .error _ => []
 
 /-- `tzical.get(tzid)`: index of the zone, `.ok none` = `None` (unknown id) -/
 def get (vs : List VTz) (tzid : Option (List Char)) : Py.R (Option Nat) :=
